@@ -19,9 +19,9 @@ func init() {
 			"freeze/pause gate called with the address of the very account being written, the token-level key ELRONDesdt‖<same token>, the type's own pause handler and the input's ReturnCallAfterError flag; the only exemptions are " +
 			"the entry points registered as ESDTWipe/ESDTFreeze/ESDTUnFreeze/ESDTPause/ESDTUnPause (the property's own list). R2: the gate (discovered by role: the error-returning function that queries IsPaused) succeeds only under " +
 			"return-after-error, address == ESDTSCAddress, or Frozen == false ∧ IsPaused(key) == false. R3: IsPaused and the pause toggle use the account loaded from SystemAccountAddress and the caller's key unchanged; the factory hands " +
-			"the same pause object over its own accounts adapter to every constructor that takes a pause handler. R4: freeze toggling does not touch Value. Does NOT decide: histories of freeze/pause as observed behaviour.",
+			"the same pause object over its own accounts adapter to every constructor that takes a pause handler. R4: freeze toggling does not touch Value. R5: the frozen flag of a stored entry (ESDigitalToken.Properties) is written only below ESDTFreeze / ESDTUnFreeze / ESDTWipe: no other function can clear it on the entry the gate is about to test. Does NOT decide: histories of freeze/pause as observed behaviour.",
 		Trusted: []string{"T-EXEMPT: the five protocol names exempted by the property statement", "A-presence: acntSnd/acntDst are the accounts at CallerAddr/RecipientAddr; LoadAccount(a) is the account at a", "flag byte tables: C20"},
-		Rules:   []func(*Ctx){c04r1, c04r2, c04r3, c04r4},
+		Rules:   []func(*Ctx){c04r1, c04r2, c04r3, c04r4, c04r5},
 	})
 }
 
@@ -195,14 +195,45 @@ func c04r1(c *Ctx) {
 			addrs := addressesOf(x, origins, s.Env.Term(acct))
 			token := ks.Parts[0]
 			why := ""
-			pred := func(f Fact) bool {
+			flagTerm := "*" + x.in + ".VMInput.ReturnCallAfterError"
+			flagTrue := func(f Fact) bool { return !f.Lin && f.Pos && f.Atom == "cond:"+flagTerm }
+			var pred func(f Fact) bool
+			wrapDepth := 0
+			pred = func(f Fact) bool {
 				if f.Lin || !f.Pos || f.Call == nil || !strings.HasPrefix(f.Atom, "ok:") {
 					return false
 				}
 				sc := f.Call.Common().StaticCallee()
 				idx, isGate := gp[sc]
 				if !isGate {
-					return false
+					// a wrapper around the gate (`checkDestinationRestrictions`): each of its success returns is cut by the
+					// gate (bound as required) or by the same return-after-error flag under which the gate itself succeeds
+					if sc == nil || len(sc.Blocks) == 0 || !c.P.InPkgs(sc, "builtInFunctions") || !lastIsError(sc) || wrapDepth >= 2 || f.Env == nil || f.Env.depth >= 6 {
+						return false
+					}
+					reachesGate := false
+					for g := range gp {
+						if c.P.ReachableFrom([]*ssa.Function{sc})[g] {
+							reachesGate = true
+						}
+					}
+					if !reachesGate {
+						return false
+					}
+					wrapDepth++
+					defer func() { wrapDepth-- }()
+					sub := f.Env.Sub(f.Call, sc)
+					n := 0
+					for _, r := range returnsOf(sc) {
+						if !isSuccessReturn(r) {
+							continue
+						}
+						n++
+						if _, ok := sub.CutAt(r, orPred(pred, flagTrue), nil); !ok {
+							return false
+						}
+					}
+					return n > 0
 				}
 				a := f.Call.Common().Args
 				if !addrs[f.Env.Term(a[idx.addr])] {
